@@ -1,0 +1,66 @@
+//go:build verif
+
+package ed25519
+
+import "github.com/cloudflare/pat-go/ed25519/internal/edwards25519/field"
+
+// VerifFe runs one operation of the internal field arithmetic on elements given limb by limb
+// (build tag verif only). It returns the result's limbs, a byte string for the operations that
+// produce one, and an integer for the operations that return a flag.
+func VerifFe(op string, a, b [5]uint64, y uint32, raw []byte) (out [5]uint64, enc []byte, flag int) {
+	x, z := field.VerifFromLimbs(a), field.VerifFromLimbs(b)
+	v := new(field.Element)
+	switch op {
+	case "mul":
+		v.Multiply(x, z)
+	case "square":
+		v.Square(x)
+	case "add":
+		v.Add(x, z)
+	case "sub":
+		v.Subtract(x, z)
+	case "neg":
+		v.Negate(x)
+	case "carry":
+		v = field.VerifCarryPropagate(x)
+	case "reduce":
+		v = field.VerifReduce(x)
+	case "bytes":
+		v.Set(x)
+		enc = x.Bytes()
+	case "set_bytes":
+		v.SetBytes(raw)
+	case "invert":
+		v.Invert(x)
+	case "pow22523":
+		v.Pow22523(x)
+	case "sqrt_ratio":
+		_, flag = v.SqrtRatio(x, z)
+	case "mult32":
+		v.Mult32(x, y)
+	case "equal":
+		v.Set(x)
+		flag = x.Equal(z)
+	case "is_negative":
+		v.Set(x)
+		flag = x.IsNegative()
+	case "absolute":
+		v.Absolute(x)
+	case "select":
+		v.Select(x, z, int(y))
+	case "swap":
+		v.Set(x)
+		w := new(field.Element).Set(z)
+		v.Swap(w, int(y))
+		l := field.VerifLimbs(w)
+		enc = make([]byte, 0, 40)
+		for _, u := range l {
+			for i := 0; i < 8; i++ {
+				enc = append(enc, byte(u>>(8*i)))
+			}
+		}
+	default:
+		panic("VerifFe: unknown operation " + op)
+	}
+	return field.VerifLimbs(v), enc, flag
+}
